@@ -725,6 +725,9 @@ func bitwiseRightShift(n, s Number) (Number, error) {
 	case Integer:
 		switch s := s.(type) {
 		case Integer:
+			if s < 0 {
+				return nil, exceptionalValueUndefined // Go panics on a negative shift count.
+			}
 			return Integer(n >> s), nil
 		default:
 			return nil, typeError(validTypeInteger, s, nil)
@@ -740,6 +743,9 @@ func bitwiseLeftShift(n, s Number) (Number, error) {
 	case Integer:
 		switch s := s.(type) {
 		case Integer:
+			if s < 0 {
+				return nil, exceptionalValueUndefined // Go panics on a negative shift count.
+			}
 			return Integer(n << s), nil
 		default:
 			return nil, typeError(validTypeInteger, s, nil)
